@@ -169,8 +169,19 @@ def _object_sweep(ca, rnd):
     f = chk(ca.Remark, rnd.choice(["remark text", "10 remark = C-1, x", "remark  a   b ", "4294967295 remark z"]), kw, True)
     if f:
         return f, count
+    # entries whose rendered text is longer than the source text (numbers become names) and than 100 characters
+    if plat == "ios":
+        long_src = "permit udp 10.10.10.0 0.0.0.255 eq 137 138 496 4500 20.20.20.0 0.0.0.255 eq 137 138 496 4500 log"
+        long_src2 = "permit tcp 10.10.10.0 0.0.0.255 eq 15001 15002 496 20.20.20.0 0.0.0.255 eq 15001 15002 496 139 log"
+    else:
+        long_src = "permit udp 10.10.10.0/24 range 137 4500 20.20.20.0/24 range 138 496 log"
+        long_src2 = "permit udp 10.10.10.0 0.0.0.255 range 137 4500 20.20.20.0 0.0.0.255 range 138 496 log"
+    for src in (long_src, long_src2):
+        f = chk(ca.Ace, src, kw, False)
+        if f:
+            return f, count
     # AceGroup / Acl / AddrGroup / config level
-    lines = []
+    lines = [long_src] if rnd.random() < 0.3 else []
     for i in range(rnd.randint(1, 5)):
         if rnd.random() < 0.25:
             lines.append(f"{(i + 1) * 10} remark r{i}")
@@ -201,7 +212,7 @@ def _object_sweep(ca, rnd):
     except Exception as ex:  # noqa
         return {"what": f"grouped Acl failed: {type(ex).__name__}: {ex}",
                 "input": {"class": "Acl(group_by)", "lines": lines, "platform": plat, "version": ver}}, count
-    indent = rnd.choice(["  ", " ", "    ", ""])
+    indent = rnd.choice(["  ", " ", "    ", "", "\t", " \t"])
     typ = "extended"
     head = f"ip access-list extended A-{rnd.randint(1, 9)}" if plat == "ios" else f"ip access-list A-{rnd.randint(1, 9)}"
     count += 1
